@@ -57,6 +57,8 @@ type Run struct {
 	skipConfirm bool
 	// inexhaustive: part of the exploration was lost (a worker crashed)
 	inexhaustive bool
+	finishing    bool
+	ffOnce       sync.Once
 
 	start    time.Time
 	cap      time.Duration
@@ -216,8 +218,15 @@ func (r *Run) ViolationV(v V) {
 func (r *Run) Violation(key, what string, c any) {
 	r.mu.Lock()
 	defer r.mu.Unlock()
-	if _, ok := r.viol[key]; ok {
+	if _, ok := r.viol[key]; ok || r.finishing {
 		return
+	}
+	if os.Getenv("VERIF_FAIL_FAST") != "" {
+		// used by the mutation sweep: the first violation that is not a listed
+		// finding ends the run (after the usual confirmation)
+		if _, listed := r.known()[key]; !listed {
+			defer func() { go r.ffOnce.Do(r.Finish) }()
+		}
 	}
 	if f := os.Getenv("VERIF_DUMP_VIOLATIONS"); f != "" {
 		// debugging aid: every violation key, one per line
@@ -339,8 +348,21 @@ func (r *Run) Finish() {
 	known := r.known()
 	var unlisted []V
 	var knownSeen []string
-	for _, k := range r.order {
-		v := r.viol[k]
+	// Finish may run while workers are still reporting (watchdog, fail-fast):
+	// work on a snapshot
+	r.mu.Lock()
+	order := append([]string(nil), r.order...)
+	viol := make(map[string]V, len(r.viol))
+	for k, v := range r.viol {
+		viol[k] = v
+	}
+	r.finishing = true
+	r.mu.Unlock()
+	for _, k := range order {
+		v, ok := viol[k]
+		if !ok {
+			continue
+		}
 		if what, ok := known[k]; ok {
 			knownSeen = append(knownSeen, fmt.Sprintf("KNOWN-FINDING: property=%s %s (%s)", r.ID, k, what))
 			continue
